@@ -265,6 +265,57 @@ def _check(case, notes):
                                    "" if conv == "default" else ", convert=False", dim, d2, got)))
             if (_values(q0), uq.sys_of(q0.units), uq.dim_of(q0.units)) != before:
                 out.append(("C06:%s:operand-mutated" % tag, "the constructor changed the quantity it was given"))
+        elif sub in ("itemlist", "itemlist_mismatch"):
+            # an array built from a LIST mixing a bare number, a UnitValue of the array's dimension in a foreign system (same-dimension
+            # sub-space only; two bare numbers in the mismatch sub-space) and ONE UnitValue item (value 7.5, system src, dimension dim2)
+            # at position pos; dst / dim = units of the array
+            src, dst, dim, pos, route = tuple(case["src"]), tuple(case["dst"]), tuple(case["dim"]), case["pos"], case["route"]
+            d2 = tuple(case["dim2"]) if sub == "itemlist_mismatch" else dim
+            F1 = ("km", "h", "kmol")
+            item = uq.mk_uv(7.5, src, d2)
+            if sub == "itemlist":
+                lst = [3.7, uq.mk_uv(41.0, F1, dim)]
+                exact = [F(3.7) * si.si_scale(dst, dim), F(41.0) * si.si_scale(F1, dim)]
+            else:
+                lst, exact = [3.7, 41.0], [F(0), F(0)]          # bare numbers only beside the item (exact is unused: the call must raise)
+            lst.insert(pos, item)
+            exact.insert(pos, F(7.5) * si.si_scale(src, dim))
+            units = uq.mk_units(dst, dim)
+
+            def build():
+                if route == "ctor":
+                    return UnitArray(lst, units)
+                q_ = UnitArray([0.0] * len(lst), units)
+                if route == "value=":
+                    q_.value = lst
+                elif route == "set_value":
+                    q_.set_value(lst)
+                else:
+                    raise ValueError(route)
+                return q_
+            if sub == "itemlist":
+                arr = build()
+                tag = "itemlist:%s" % route
+                if uq.sys_of(arr.units) != dst or uq.dim_of(arr.units) != dim:
+                    out.append(("C06:%s:array-units-changed" % tag, "array in %s %s has units %s %s" % (dst, dim, uq.sys_of(arr.units), uq.dim_of(arr.units))))
+                    return out
+                if not _cmp_values(tag, uq.si_value(arr), exact, out,
+                                   "UnitArray from %r in %s (SI values)" % ([str(x) for x in lst], si.units_string(dst, dim))):
+                    return out
+                vals = [float(x) for x in arr.value]
+                if vals[0 if pos != 0 else 1] != 3.7 or (src == dst and vals[pos] != 7.5):
+                    out.append(("C06:%s:identity-not-exact" % tag, "%r stored as %r" % ([str(x) for x in lst], vals)))
+                if (item.value, uq.sys_of(item.units), uq.dim_of(item.units)) != (7.5, src, d2):
+                    out.append(("C06:%s:operand-mutated" % tag, "the UnitValue item was changed"))
+            else:
+                try:
+                    arr = build()
+                except Exception:
+                    notes.append("itemlist_mismatch_raised")
+                else:
+                    out.append(("C06:itemlist-mismatch:%s:%s:accepted" % (route, "same-system" if src == dst else "other-system"),
+                                "array in %r built from %r (item %d has dimension %s, the array %s) holds %r instead of raising"
+                                % (si.units_string(dst, dim), [str(x) for x in lst], pos, d2, dim, [float(x) for x in arr.value])))
         elif sub == "carrier":
             src, dst, dim = tuple(case["src"]), tuple(case["dst"]), tuple(case["dim"])
             car, route = case["carrier"], case["route"]
@@ -578,6 +629,41 @@ def _spaces(tier):
     sp.append(("constructor mismatch: the same constructor calls with target units of a different dimension must raise: every ordered "
                "pair of different dimensions of {-1,0,1}^3 x 3 x 2 target forms x convert default / False x 3 system pairs", gen_ctor_mis,
                27 * 26 * len(CTOR) * 2 * 2 * 3))
+    def gen_itemlist():
+        for a in S36:
+            for b in S36:
+                for dim in dims_c:
+                    for pos in range(3):
+                        for route in ROUTES:
+                            yield {"sub": "itemlist", "src": b, "dst": a, "dim": dim, "pos": pos, "route": route}
+    sp.append(("item lists: array in each of 36 systems built (constructor, value setter, set_value) from a list mixing a bare number, a "
+               "UnitValue in a foreign system and a UnitValue item in each of 36 systems (own included) at first / middle / last position, "
+               "2 dimensions", gen_itemlist, 36 * 36 * len(dims_c) * 3 * len(ROUTES)))
+
+    IM_ROUTES = ROUTES if tier == "thorough" else ("ctor",)
+    IM_SMALL = [] if tier == "thorough" else H6
+
+    def gen_itemlist_mis():
+        # the item of another dimension is written in the SAME full units system as the array, or in another one
+        for k, a in enumerate(S36):
+            for b in (a, S36[(k + 1) % len(S36)]):
+                for d1 in c1:
+                    for d2 in c1:
+                        if d1 != d2:
+                            for pos in range(3):
+                                for route in IM_ROUTES:
+                                    yield {"sub": "itemlist_mismatch", "src": b, "dst": a, "dim": d1, "dim2": d2, "pos": pos, "route": route}
+        for k, a in enumerate(IM_SMALL):
+            for b in (a, IM_SMALL[(k + 1) % len(IM_SMALL)]):
+                for d1 in c1:
+                    for d2 in c1:
+                        if d1 != d2:
+                            for route in ("value=", "set_value"):
+                                yield {"sub": "itemlist_mismatch", "src": b, "dst": a, "dim": d1, "dim2": d2, "pos": 1, "route": route}
+    sp.append(("item lists mismatch: one UnitValue item of another dimension, written in the SAME units system as the array or in another "
+               "one, must raise: 36 systems x {same, other} x every ordered pair of different dimensions of {-1,0,1}^3 x 3 positions x %s"
+               % ("3 routes" if tier == "thorough" else "constructor, + 6 systems x {same, other} x the same dimension pairs x middle position x {value setter, set_value}"),
+               gen_itemlist_mis, 36 * 2 * 27 * 26 * 3 * len(IM_ROUTES) + len(IM_SMALL) * 2 * 27 * 26 * 2))
     return sp
 
 
@@ -595,7 +681,7 @@ def _work(job):
         for n_ in notes:
             acc.count(n_)
         acc.add(states=1, transitions=1, traces=1, evaluations=1)
-        nt = case.get("src") != case.get("dst") or case["sub"] in ("compose", "family", "mismatch", "famprod", "history", "items", "set_at_mismatch", "ctor_mismatch")
+        nt = case.get("src") != case.get("dst") or case["sub"] in ("compose", "family", "mismatch", "famprod", "history", "items", "set_at_mismatch", "ctor_mismatch", "itemlist_mismatch")
         if nt:
             seen_nt += 1
         for key, what in res:
